@@ -12,7 +12,16 @@ import XPathV.Lemmas.PredSem2.Truth
   argument like the first) `contains(P, Q)`, `contains('lit', Q)` … with a flat path `Q` in *second*
   position,
 * `local-name() = 'lit'`, `local-name() != 'lit'`, `local-name(P) = 'lit'`, `local-name(P) != 'lit'`,
-* the path form `(P)[b]` (a parenthesised path filtered by a boolean-valued predicate).
+* the path form `(P)[b]` (a parenthesised path filtered by a boolean-valued predicate),
+* a path compared with a path, `P op Q` for all six operators (`//a[b = c]`, `//a[@x != ../@y]`,
+  `//a[b < c/d]`): `P` and `Q` are *arbitrary* paths of the fragment (all twelve axes, any
+  predicates, **no** flatness requirement — the truth is existential over the two node sets,
+  `compare_nodes_congr`).  (First stated for `=`/`!=` only: the engine compared string-values
+  byte-wise for `<`, `<=`, `>`, `>=` — `<b>10</b>` against `<c>9</c>` satisfied `b < c`;
+  `cmpStringStringF` was repaired.)
+* a path compared with a string literal for all six operators, either side: `P op 'lit'`,
+  `'lit' op P` (`eqStr`/`neStr` are the `=`/`!=` instances with the literal on the right; the
+  relational ones became XPath's with the repairs of `cmpStringStringF` and `cmpNodeSetString`).
 
 **Restriction on `P` as a function argument** (`count(P)`, `local-name(P)`, `contains(P, …)`): `P`
 is a *flat* path — steps over `child` / `attribute` / `self` from the context node or the root,
@@ -112,6 +121,15 @@ inductive Frag2 : Bool → Ast → Prop
   /-- `contains('lit', Q)` …: a flat path in second position -/
   | strLitPath (name pfx s : String) (q : Ast) : name ∈ strTests → Frag2 true q → FlatAny q →
       Frag2 false (.call name pfx (.acons (.str s) (.acons q .anil)))
+  /-- `P op Q`, all six operators: two paths of any shape -/
+  | cmpPath (op : String) (p q : Ast) : op ∈ cmpOps → Frag2 true p → Frag2 true q →
+      Frag2 false (.oper op p q)
+  /-- `P op 'lit'`, all six operators -/
+  | cmpStrR (op : String) (p : Ast) (s : String) : op ∈ cmpOps → Frag2 true p →
+      Frag2 false (.oper op p (.str s))
+  /-- `'lit' op P`, all six operators -/
+  | cmpStrL (op : String) (s : String) (p : Ast) : op ∈ cmpOps → Frag2 true p →
+      Frag2 false (.oper op (.str s) p)
 
 /-- the extension contains the fragment of `PredSem` -/
 theorem frag2_of_frag (k : Bool) (e : Ast) (h : Frag k e) : Frag2 k e := by
@@ -258,6 +276,18 @@ theorem frag_sem2 {d : Doc} (wf : WF d) (cfg : ECfg) (hns : cfg.nsIface = true) 
     exact fun c hc => ⟨(fun h => nomatch h),
       fun _ => predOK_strTest2 d cfg name hn pfx _ _ (.str s) q c (strValOK_lit d cfg s c).strArgOK
         (naive_seqOK wf cfg q hflatq c ((ihq c hc).1 rfl)).strArgOK⟩
+  | cmpPath op p q hop _ _ ihp ihq =>
+    refine fun c hc => ⟨(fun h => nomatch h), fun _ => ?_⟩
+    rw [predPlan2_cmp op hop]
+    exact predOK_cmpPath d cfg op hop _ _ p q c ((ihp c hc).1 rfl) ((ihq c hc).1 rfl)
+  | cmpStrR op p s hop _ ih =>
+    refine fun c hc => ⟨(fun h => nomatch h), fun _ => ?_⟩
+    rw [predPlan2_cmp op hop]
+    exact predOK_cmpStrR d cfg op hop _ p s c ((ih c hc).1 rfl)
+  | cmpStrL op s p hop _ ih =>
+    refine fun c hc => ⟨(fun h => nomatch h), fun _ => ?_⟩
+    rw [predPlan2_cmp op hop]
+    exact predOK_cmpStrL d cfg op hop _ p s c ((ih c hc).1 rfl)
 
 /-! ## the statements for naive plans -/
 
@@ -347,5 +377,44 @@ theorem holds_is_model_truth2 {d : Doc} (wf : WF d) (cfg : ECfg) (hns : cfg.nsIf
   obtain ⟨v, _, hE, _, hbn, _, htr, _⟩ := predOK_holds (F := F) d cfg (predPlan2 b) b x
     (fun pos size => (frag_sem2 (F := F) wf cfg hns hinj false b hb ⟨x, pos, size⟩ hx).2 rfl) 1 1
   exact ⟨v, hE, hbn, htr⟩
+
+/-- **what `P op Q` means at a node** (the oracle's `boolean(P op Q)`, spelled out, all six
+operators): both paths evaluate to node-sets there, and the comparison holds iff some node of `P`
+and some node of `Q` have equal (for `=`) / different (for `!=`) string-values, or — for `<`, `<=`,
+`>`, `>=` — string-values whose numbers compare -/
+theorem holds_cmpPath {d : Doc} (wf : WF d) (cfg : ECfg) (hns : cfg.nsIface = true)
+    (hinj : HashInj d cfg) (op : String) (hop : op ∈ cmpOps) (P Q : Ast) (hP : Frag2 true P)
+    (hQ : Frag2 true Q) (x : Ref) (hx : validRef d x = true) :
+    ∃ nsP gP nsQ gQ, Spec.eval (F := F) d P ⟨x, 1, 1⟩ = .ok (.val (.nodes nsP) gP) ∧
+      Spec.eval (F := F) d Q ⟨x, 1, 1⟩ = .ok (.val (.nodes nsQ) gQ) ∧
+      (holds (F := F) d (.oper op P Q) x = true ↔
+        ∃ u ∈ nsP, ∃ v ∈ nsQ, (op = "=" ∧ stringValue d u = stringValue d v) ∨
+          (op = "!=" ∧ stringValue d u ≠ stringValue d v) ∨
+          (∃ cop, Spec.CmpOp.ofString op = some cop ∧ cop.isRel = true ∧
+            Spec.cmpNum cop (Spec.strToNum (F := F) (stringValue d u))
+              (Spec.strToNum (F := F) (stringValue d v)) = true)) := by
+  obtain ⟨_, nsP, gP, _, hSP, _, _⟩ := C02_naive2 (F := F) wf cfg hns hinj P hP x hx
+  obtain ⟨_, nsQ, gQ, _, hSQ, _, _⟩ := C02_naive2 (F := F) wf cfg hns hinj Q hQ x hx
+  refine ⟨nsP, gP, nsQ, gQ, hSP, hSQ, ?_⟩
+  simp only [cmpOps, List.mem_cons, List.not_mem_nil, or_false] at hop
+  rcases hop with rfl | rfl | rfl | rfl | rfl | rfl
+  · simp only [holds, eval_cmp d "=" .eq rfl P Q ⟨x, 1, 1⟩ _ _ hSP hSQ, Spec.Res.value, Spec.toBool,
+      Spec.compare, Spec.CmpOp.isRel]
+    simp [Spec.CmpOp.ofString]
+  · simp only [holds, eval_cmp d "!=" .ne rfl P Q ⟨x, 1, 1⟩ _ _ hSP hSQ, Spec.Res.value, Spec.toBool,
+      Spec.compare, Spec.CmpOp.isRel]
+    simp [Spec.CmpOp.ofString]
+  · simp only [holds, eval_cmp d "<" .lt rfl P Q ⟨x, 1, 1⟩ _ _ hSP hSQ, Spec.Res.value, Spec.toBool,
+      Spec.compare, Spec.CmpOp.isRel]
+    simp [Spec.CmpOp.ofString]
+  · simp only [holds, eval_cmp d "<=" .le rfl P Q ⟨x, 1, 1⟩ _ _ hSP hSQ, Spec.Res.value, Spec.toBool,
+      Spec.compare, Spec.CmpOp.isRel]
+    simp [Spec.CmpOp.ofString]
+  · simp only [holds, eval_cmp d ">" .gt rfl P Q ⟨x, 1, 1⟩ _ _ hSP hSQ, Spec.Res.value, Spec.toBool,
+      Spec.compare, Spec.CmpOp.isRel]
+    simp [Spec.CmpOp.ofString]
+  · simp only [holds, eval_cmp d ">=" .ge rfl P Q ⟨x, 1, 1⟩ _ _ hSP hSQ, Spec.Res.value, Spec.toBool,
+      Spec.compare, Spec.CmpOp.isRel]
+    simp [Spec.CmpOp.ofString]
 
 end XPathV.PredSem2
